@@ -51,7 +51,7 @@ def run(pid, tier, seed):
     stats = os.path.join(d, "stats.json")
     jobs = [
         ("^TestVerifDelayFilterSync$", {"VERIF_SCEN": scen, "VERIF_STATS": stats,
-                                        "VERIF_BUDGET": 150 if not big else 1500, "VERIF_RANDOM": 100 if not big else 1500}, False),
+                                        "VERIF_BUDGET": 150 if not big else 600, "VERIF_RANDOM": 100 if not big else 600}, False),
         ("^TestVerifDelayFilterFree$", {"VERIF_N": 300 if not big else 3000}, False),
         ("^TestVerifRouterDelay$", {"VERIF_RUNS": 10 if not big else 100, "VERIF_N": 60 if not big else 200}, True),
         ("^TestVerifRouterJitter$", {"VERIF_N": 40 if not big else 400}, False),
@@ -61,7 +61,7 @@ def run(pid, tier, seed):
         tp = os.path.join(d, "t%d.trace" % i)
         e = {"VERIF_TRACE": tp, "VERIF_SEED": seed}
         e.update(env)
-        rc, out, _ = vlib.go_test(repo, "./vnet/", run_re, env=e, synctest=st, timeout=600)
+        rc, out, _ = vlib.go_test(repo, "./vnet/", run_re, env=e, synctest=st, timeout=2400)
         if rc != 0:
             kind = vlib.classify_go_failure(out)
             if kind == "sut-panic":
